@@ -153,6 +153,63 @@ class ModelBackend(Backend):
         tokens.Dig.symbolic_order = False
         self.ins.restore()
 
+    def sibling(self, base, listing=None):
+        """a second world (other mount point / enumeration order) explored on the same path; close() it before using self again"""
+        from . import world as W
+        o = ModelBackend.__new__(ModelBackend)
+        o.W, o.e = W, self.e
+        o.world = W.World()
+        o.world.listing = listing or self.world.listing
+        o.world.hm = self.world.hm  # same digest universe
+        o.world.now = BASE_NOW
+        o.base = base
+        o.world.mkdirs(base)
+        o.world.cwd = base
+        o.ins = W.install(o.world)
+        o._tick = self._tick
+        o.step = 0
+        o.notes = self.notes
+        return o
+
+    def copy_tree_to(self, rel, other, rel2):
+        src = self.p(rel)
+        for q, n in self.world.nodes.items():
+            if q == src or q.startswith(src + "/"):
+                other.world.mkdirs(posixpath.dirname(other.p(rel2) + q[len(src):]))
+                other.world.nodes[other.p(rel2) + q[len(src):]] = n.clone()
+
+    def fingerprint(self, rel):
+        """what 'the bytes of this file' are in the model: literal pieces + element trees"""
+        from . import tokens
+        n = self.world.nodes[self.p(rel)]
+        if n.content is None:
+            return ("opaque", n.cid)
+        out = []
+        for piece in b"".join(n.content).decode("utf-8").split("\x00"):
+            out.append(piece)
+        return ("xml", out)
+
+    def same_bytes(self, fa, fb):
+        from . import tokens
+        if fa[0] != fb[0]:
+            return False
+        if fa[0] == "opaque":
+            return fa[1] == fb[1]
+        a, b_ = fa[1], fb[1]
+        if len(a) != len(b_):
+            return False
+        res = True
+        for x, y in zip(a, b_):
+            if x.startswith("XML") and y.startswith("XML") and x[3:].isdigit() and y[3:].isdigit():
+                r = _same_el(tokens.lookup("\x00%s\x00" % x).el, tokens.lookup("\x00%s\x00" % y).el)
+                if r is False:
+                    return False
+                if r is not True:
+                    res = r if res is True else (res & r)
+            elif x != y:
+                return False
+        return res
+
     def note(self, text):
         self.notes.append(text)
         self.e.path_note = "; ".join(self.notes)
@@ -423,8 +480,12 @@ class ModelBackend(Backend):
         else:
             raise pse.HarnessError("unknown command %s" % cmd)
         exit_code, exc, exc_obj = 0, None, None
+        w.crash_at = None if o.get("crash_at") is None else len(w.ops) + o["crash_at"]
+        w.crash_torn = bool(o.get("torn"))
         try:
             fn(**kw)
+        except self.W.Crash:
+            exit_code, exc = "killed", "Crash"
         except click.ClickException as ex:
             exit_code, exc, exc_obj = ex.exit_code, type(ex).__name__, ex
         except click.exceptions.Exit as ex:
@@ -432,16 +493,79 @@ class ModelBackend(Backend):
         except click.Abort as ex:
             exit_code, exc = 1, "Abort"
         except Exception as ex:  # what click would turn into a traceback and exit code 1
+            _raise_if_model_gap(ex)
             exit_code, exc, exc_obj = 1, type(ex).__name__, ex
         out, err = [], []
         for kind, msg in w.log:
             (out if kind == "out" else err).extend(_plain(msg).split("\n"))
         if exc_obj is not None and isinstance(exc_obj, click.ClickException):
             err.append("Error: " + _plain(exc_obj.format_message()))
+        w.crash_at = None
         w.cwd = self.base
         self.step += 1
         w.now = w.now + self.tick
         return Result(exit_code, exc, out, err, list(w.ops[mark:]), exc_obj)
+
+
+_MODEL_TYPES = ("ReadFile", "WriteFile", "Chunk", "RecHasher", "FakeOS", "FakeOSPath", "FakeEtree", "El", "FakeDatetime", "FakeTimedelta",
+                "FakeTimezone", "FakeTimeModule", "FakeDatetimeModule", "BytesTok", "Dig", "DecStr", "XmlStr", "IsoStr", "SymInt", "SymBool", "_Tree",
+                "FakeSchema", "FakeGlob", "SimpleNamespace")
+
+
+def _raise_if_model_gap(ex):
+    """an exception caused by the models not offering what the code under test used is a model gap, not behaviour of the tool"""
+    import traceback
+    from .world import ModelGap
+    tb = ex.__traceback__
+    last = None
+    while tb is not None:
+        last = tb
+        tb = tb.tb_next
+    here = os.path.dirname(os.path.abspath(__file__))
+    msg = str(ex)
+    if isinstance(ex, (AttributeError, TypeError)) and any(("'%s'" % t) in msg or (" %s " % t) in msg or msg.startswith(t) for t in _MODEL_TYPES):
+        raise ModelGap("%s: %s" % (type(ex).__name__, msg))
+    if last is not None and last.tb_frame.f_code.co_filename.startswith(here) and isinstance(ex, (AttributeError, TypeError, NotImplementedError, KeyError, IndexError)):
+        raise ModelGap("%s inside the model: %s" % (type(ex).__name__, msg))
+
+
+def _same_el(a, b):
+    """structural equality of two element trees; digests compare symbolically"""
+    from . import tokens
+    if a.tag != b.tag or len(a.children) != len(b.children) or sorted(a.attrib) != sorted(b.attrib):
+        return False
+    res = True
+
+    def conj(r):
+        nonlocal res
+        if r is False:
+            return False
+        if r is not True:
+            res = r if res is True else (res & r)
+        return True
+
+    def same_text(x, y):
+        if x is None or y is None:
+            return (x or None) is (y or None) or (x in (None, "") and y in (None, ""))
+        if isinstance(x, tokens.Dig) or isinstance(y, tokens.Dig):
+            return x == y
+        if isinstance(x, pse.DecStr) or isinstance(y, pse.DecStr):
+            if isinstance(x, pse.DecStr) and isinstance(y, pse.DecStr):
+                return x.sym == y.sym
+            return False
+        if tokens.has_key(x) or tokens.has_key(y):
+            return tokens.plain(x) == tokens.plain(y)
+        return x == y
+
+    if not conj(same_text(a.text, b.text)):
+        return False
+    for k in a.attrib:
+        if not conj(same_text(a.attrib[k], b.attrib[k])):
+            return False
+    for c, d in zip(a.children, b.children):
+        if not conj(_same_el(c, d)):
+            return False
+    return res
 
 
 def _plain(s):
@@ -535,9 +659,31 @@ class RealBackend(Backend):
         self.tz = tz
         self.step = 0
         self.perm = None  # optional listing permutation hook (C13)
+        self.listing = "os"
 
     def close(self):
-        shutil.rmtree(self.tmp, ignore_errors=True)
+        if getattr(self, "_owner", True):
+            shutil.rmtree(self.tmp, ignore_errors=True)
+
+    def sibling(self, base, listing=None):
+        o = RealBackend.__new__(RealBackend)
+        o.__dict__.update(self.__dict__)
+        o._owner = False
+        o.base = os.path.join(self.tmp, "alt", base.lstrip("/"))
+        os.makedirs(o.base, exist_ok=True)
+        o.now = BASE_NOW
+        o.step = 0
+        o.listing = listing or getattr(self, "listing", "sorted")
+        return o
+
+    def copy_tree_to(self, rel, other, rel2):
+        shutil.copytree(self.p(rel), other.p(rel2), symlinks=True)
+
+    def fingerprint(self, rel):
+        return self._bytes(rel)
+
+    def same_bytes(self, fa, fb):
+        return fa == fb
 
     # ---- tree
     def mkdir(self, rel, mtime=DEFAULT_MTIME):
@@ -852,10 +998,27 @@ class RealBackend(Backend):
             a.append(ap(o["dest"]))
         return a
 
+    def run_killed(self, cmd, root, cwd, o):
+        """run the command in a child process that is killed (os._exit) at its k-th file-system operation"""
+        import subprocess, json as _json
+        argv = self.argv(cmd, root, cwd, **{k: v for k, v in o.items() if k not in ("crash_at", "torn")})
+        script = os.path.join(os.path.dirname(os.path.abspath(__file__)), "crashrun.py")
+        env = dict(os.environ, TZ=self.tz, VERIF_CRASH_AT=str(o["crash_at"]), VERIF_CRASH_TORN="1" if o.get("torn") else "0",
+                   VERIF_FREEZE=str(self.now), VERIF_TOOL=CMD_TOOL[cmd])
+        p = subprocess.run([sys.executable, script] + argv, cwd=self.p(cwd) if cwd is not None else self.base, env=env,
+                           capture_output=True, text=True, timeout=300)
+        self.step += 1
+        self.now += self.tick
+        if p.returncode == 99:
+            return Result("killed", "Crash", p.stdout.split("\n"), p.stderr.split("\n"), None)
+        return Result(p.returncode, None if p.returncode == 0 else _exc_name_for_code(p.returncode), p.stdout.split("\n"), p.stderr.split("\n"), None)
+
     def run(self, cmd, root="R", cwd=None, **o):
         import datetime as dt
         import time
         from click.testing import CliRunner
+        if o.get("crash_at") is not None:
+            return self.run_killed(cmd, root, cwd, o)
         _no_network()
         from ascmhl.cli import ascmhl as cli1, ascmhl_debug as cli2
         import ascmhl.logger as LG
@@ -894,6 +1057,13 @@ class RealBackend(Backend):
         return Result(res.exit_code, exc, out, err, list(self.last_ops), res.exception)
 
     def _invoke(self, runner, cli, argv):
+        mode = getattr(self, "listing", "sorted")
+        if mode != "os" and self.perm is None:
+            self.perm = _ListingOrder(mode)
+            try:
+                return self._invoke(runner, cli, argv)
+            finally:
+                self.perm = None
         if not _AUDIT["installed"]:
             sys.addaudithook(_audit_hook)
             _AUDIT["installed"] = True
@@ -907,6 +1077,54 @@ class RealBackend(Backend):
         finally:
             _AUDIT["on"] = False
             self.last_ops = [o for o in _AUDIT["ops"] if any(isinstance(x, str) and x.startswith(self.tmp) for x in o[1:])]
+
+
+def order_names(names, mode):
+    names = sorted(names)
+    if mode == "reversed":
+        return names[::-1]
+    if mode == "rotated":
+        return names[1:] + names[:1]
+    if mode == "interleaved":
+        return names[1::2] + names[0::2]
+    return names
+
+
+class _ListingOrder:
+    """makes the operating system enumerate directory entries in a chosen order (os.listdir / os.walk / os.scandir callers)"""
+
+    def __init__(self, mode):
+        self.mode = mode
+
+    def __enter__(self):
+        mode = self.mode
+        self.real_listdir, self.real_walk = os.listdir, os.walk
+        real_listdir = self.real_listdir
+
+        def listdir(p="."):
+            return order_names(real_listdir(p), mode)
+
+        def walk(top, topdown=True, onerror=None, followlinks=False):
+            try:
+                names = listdir(top)
+            except OSError:
+                return
+            dirs = [n for n in names if os.path.isdir(os.path.join(top, n)) and (followlinks or not os.path.islink(os.path.join(top, n)) or True)]
+            files = [n for n in names if n not in dirs]
+            if topdown:
+                yield top, dirs, files
+            for d in list(dirs):
+                if followlinks or not os.path.islink(os.path.join(top, d)):
+                    yield from walk(os.path.join(top, d), topdown, onerror, followlinks)
+            if not topdown:
+                yield top, dirs, files
+
+        os.listdir, os.walk = listdir, walk
+        return self
+
+    def __exit__(self, *a):
+        os.listdir, os.walk = self.real_listdir, self.real_walk
+        return False
 
 
 _EXC_CODES = None
